@@ -1,16 +1,53 @@
 import Grass.Proto
 import Grass.Media
+import Grass.Num
+import Grass.Units
+import Grass.Value
+import Grass.Builtins
+import Grass.Color
+import Grass.Calc
+import Grass.Import
+import Grass.Scope
+import Grass.Eval
+import Grass.CssTree
+import Grass.Serialize
+import Grass.Selector
+import Grass.Extend
+import Grass.Module
+import Grass.Lexer
+import Grass.Diag
+import Grass.Cli
+import Grass.Interner
 
 /-
-  DRIVER.  One request per input line, one answer per output line.
+  DRIVER.  One request per input line, one answer per output line:
   `<core> <op> <args…>`; unknown cores/ops answer `bad-op` (never a default).
+  Each core exports `handle : List String → String`.
 -/
 open Grass
 
 def dispatch (toks : List String) : String :=
   match toks with
   | "ping" :: _ => "pong"
-  | "media" :: rest => Media.handle rest
+  | "media" :: r => Media.handle r
+  | "num" :: r => Num.handle r
+  | "units" :: r => Units.handle r
+  | "value" :: r => Value.handle r
+  | "blt" :: r => Builtins.handle r
+  | "color" :: r => Color.handle r
+  | "calc" :: r => Calc.handle r
+  | "import" :: r => Import.handle r
+  | "scope" :: r => Scope.handle r
+  | "eval" :: r => Eval.handle r
+  | "csstree" :: r => CssTree.handle r
+  | "ser" :: r => Serialize.handle r
+  | "sel" :: r => Selector.handle r
+  | "ext" :: r => Extend.handle r
+  | "module" :: r => Module.handle r
+  | "lex" :: r => Lexer.handle r
+  | "diag" :: r => Diag.handle r
+  | "cli" :: r => Cli.handle r
+  | "intern" :: r => Interner.handle r
   | _ => "bad-op"
 
 partial def loop (hin : IO.FS.Stream) (hout : IO.FS.Stream) : IO Unit := do
